@@ -332,4 +332,11 @@ def gen_c15_mesh(rnd, tier):
         out.append(dict(base, kind='uniform', n=800, h=0))
         out.append(dict(base, kind='dense', n=0, h=rnd.choice((1, 2, 3))))
         out.append(dict(base, kind='poisson', n=0, h=rnd.choice((2, 3, 4))))
+        # the same tetrahedron assembled in two steps: two faces are built and sampled, then the other two are appended to the same
+        # object (vertices listed again for the second part) and the whole is sampled
+        v2 = v + v
+        f2 = faces[:2] + [[i + 4 for i in f] for f in faces[2:]]
+        two = dict(base, name='random_tet_two_step', vpos=v2, faces=f2, split=[4, 2])
+        out.append(dict(two, kind='uniform', n=800, h=0))
+        out.append(dict(two, kind='dense', n=0, h=rnd.choice((1, 2, 3))))
     return out
